@@ -322,7 +322,21 @@ static void tolerance_substitution(const Library& ref, const Library& got, int64
                         best = std::min(best, seg_dist(q.first, q.second, bb[k].first, bb[k].second, bb[(k + 1) % bb.size()].first, bb[(k + 1) % bb.size()].second));
                     hv = std::max(hv, best);
                 }
-                if (hv <= T && far <= 268435456.0) {
+                // the recorded finding is about polygons whose EDGES stray although every edge is short enough for the neighbour
+                // test of is_circle (tolerance + 2 sqrt(2 tol (r - tol))); an edge longer than that bound must have been rejected
+                double ccx = 0, ccy = 0, rr = 0, maxedge = 0;
+                for (auto& q : bb) { ccx += q.first; ccy += q.second; }
+                ccx /= (double)bb.size(); ccy /= (double)bb.size();
+                for (auto& q : bb) rr = std::max(rr, hypot(q.first - ccx, q.second - ccy));
+                for (size_t k = 0; k < a.size(); k++)
+                    maxedge = std::max(maxedge, hypot(a[k].first - a[(k + 1) % a.size()].first, a[k].second - a[(k + 1) % a.size()].second));
+                double tg = (double)tolgrid;
+                double nbound = tg + 2 * sqrt(2 * tg * std::max(0.0, rr - tg));
+                if (maxedge > 1.1 * nbound + 2) {
+                    char b2[320];
+                    snprintf(b2, sizeof b2, "%s; its longest edge (%.1f grid steps) exceeds the neighbour bound of circle detection (%.1f)", buf, maxedge, nbound);
+                    v.fails.push_back(b2);
+                } else if (hv <= T && far <= 268435456.0) {
                     v.keys.insert("is_circle:edges-unchecked");
                     v.notes.push_back(buf);
                 } else if (far > 268435456.0) {
